@@ -255,6 +255,51 @@ static std::string handle(const std::vector<std::string>& a) {
     r += " leaked=" + std::to_string(spy.live.size()) + (spy.misuse ? " MISUSE" : "");
     return r;
   }
+  // JF / MF <L> <filterhex|-> <failspec> <hex> : deserialize while the allocator fails (k = only call k, k+ = from call k on);
+  // prints code, document, overflowed; then the document is traversed and serialized, cleared (every block must come
+  // back), reused with a working allocator, destroyed (nothing may leak, no block released twice)
+  if ((a[0] == "JF" || a[0] == "MF") && a.size() == 5) {
+    bool json = a[0] == "JF";
+    int L = std::stoi(a[1]);
+    std::string input = unhex(a[4]);
+    JsonDocument fdoc;
+    bool filtered = a[2] != "-";
+    if (filtered) {
+      std::string ftxt = unhex(a[2]);
+      deserializeJson(fdoc, ftxt.c_str(), ftxt.size(), DeserializationOption::NestingLimit(50));
+    }
+    JsonVariantConst fv = fdoc.as<JsonVariantConst>();
+    auto NL = DeserializationOption::NestingLimit((uint8_t)L);
+    auto FL = DeserializationOption::Filter(fv);
+    SpyAllocator spy;
+    const std::string& fs = a[3];
+    if (fs != "-") {
+      if (fs.back() == '+') spy.fail_from = std::stol(fs.substr(0, fs.size() - 1));
+      else { size_t k = std::stoul(fs); spy.fail.assign(k + 1, false); spy.fail[k] = true; }
+    }
+    std::string r;
+    {
+      JsonDocument doc(&spy);
+      doc["old"] = std::string("content that must disappear");     // dirty destination
+      DeserializationError err = json ? (filtered ? deserializeJson(doc, input.data(), input.size(), FL, NL) : deserializeJson(doc, input.data(), input.size(), NL))
+                                      : (filtered ? deserializeMsgPack(doc, input.data(), input.size(), FL, NL) : deserializeMsgPack(doc, input.data(), input.size(), NL));
+      size_t callsAfter = spy.calls;
+      r = std::string(codeName(err)) + " " + dump(doc.as<JsonVariantConst>()) + " ov=" + (doc.overflowed() ? "1" : "0") + " calls=" + std::to_string(callsAfter);
+      // the document is a well-formed tree: traverse, measure, serialize in both formats
+      std::string js, mp;
+      size_t n1 = serializeJson(doc, js), n2 = serializeMsgPack(doc, mp);
+      if (n1 != measureJson(doc) || n2 != measureMsgPack(doc)) r += " MEASURE-DIFFERS";
+      (void)doc.nesting(); (void)doc.size();
+      if (spy.calls != callsAfter) r += " READONLY-ALLOCATES";
+      doc.clear();
+      r += " afterclear=" + std::to_string(spy.live.size());
+      spy.fail.clear(); spy.fail_from = -1;
+      doc["k"] = std::string("v");
+      if (doc["k"] != "v" || doc.overflowed()) r += " NOT-REUSABLE";
+    }
+    r += " leaked=" + std::to_string(spy.live.size()) + (spy.misuse ? " MISUSE" : "");
+    return r;
+  }
   // MR <hex> : deserializeMsgPack then serializeMsgPack and serializeJson of the result
   if (a[0] == "MR" && a.size() == 2) {
     std::string input = unhex(a[1]);
